@@ -3,7 +3,7 @@ CONSTANTS
   Ids = {"p1","p2","p3","p4","p5"}
   CIds = {"p1","p2","p3","p4"}
   ShapeNames = {"S1","S2"}
-  Ops = {"Create","Delete","UpdatePlan","Exists","Search","List"}
+  Ops = {"Create","Delete","UpdatePlan","Exists","Search","SearchNone","List"}
   Groups = {0,1,2}
   InitVers = {0,1,2,3}
   MaxVer = 4
